@@ -92,7 +92,7 @@ def rat_cases(r, n, quick):
                 a = (a[0], a[1], gens.from_val(gens.val_of(a[1]) * 2 + 1, r)) if r.random() < 0.5 else (True, gens.from_val(r.randint(1, 50), r), (True, [1]))
             out.append(f"{op} {gens.show_rat(a)}")
         elif op in ("combination", "permutation"):
-            nn = r.randint(0, 60 if quick else 400)
+            nn = r.randint(0, 60 if quick else 150)
             rr = r.randint(0, nn + (2 if r.random() < 0.1 else 0))
             a = small_int_rat(r, nn, nn); b = small_int_rat(r, rr, rr)
             out.append(f"{op} {gens.show_rat(a)} {gens.show_rat(b)}")
@@ -275,7 +275,7 @@ def run(ctx):
     ctx.diff_stream("biguint-ops", lines, h, "biguint", canon=nat_oracle.canon, oracle=nat_oracle.oracle, nontrivial=lambda c, a: "L" in c, env=env,
                     what="BigUint factorial/fibonacci/and/or/xor/lshift_n/rshift_n/try_as_usize/lshift/rshift on raw limb vectors (dense at limb boundaries, "
                          "non-canonical forms) through the hooks; vs Lean model and vs Python int arithmetic")
-    ctx.diff_stream("bigrat-ops", rat_cases(r, 4000 if quick else 150000, quick), h, "bigrat", canon=rat_canon, oracle=rat_oracle,
+    ctx.diff_stream("bigrat-ops", rat_cases(r, 4000 if quick else 30000, quick), h, "bigrat", canon=rat_canon, oracle=rat_oracle,
                     nontrivial=lambda c, a: True, env=env,
                     what="BigRat floor/ceil/round (values within 10^-30 of an integer, halves, beyond 2^64), modulo, bitwise, shifts, factorial, nCr/nPr "
                          "(all r<=n<=60 sampled; to 400 in thorough) incl. unreduced / non-canonical arguments and out-of-domain ones; vs Lean model and Python")
